@@ -45,7 +45,7 @@ def run_arith(ctx, cases, seeds, inputs_file=None, binname='arith'):
                         else:
                             total[k] = total.get(k, 0) + v
             if not samples:
-                with open(trace) as f:
+                with open(trace, errors='replace') as f:
                     samples = [next(f).strip() for _ in range(4)]
             # distinct inputs (measured): count distinct lines of the trace
             rc, out, _ = sh("sort -u %s | wc -l" % trace)
@@ -325,7 +325,7 @@ def split_runs(path):
     """trace file -> {run header line: [lines]}"""
     runs = {}
     cur = None
-    with open(path) as f:
+    with open(path, errors='replace') as f:
         for l in f:
             l = l.rstrip('\n')
             if l.startswith('RUN '):
@@ -401,7 +401,7 @@ def run_arena(ctx, runs, ops, seeds, script=None, builds=(False, True), binname=
                         else:
                             S[k] = S.get(k, 0) + v
             if not res['samples'] and os.path.exists(trace):
-                with open(trace) as f:
+                with open(trace, errors='replace') as f:
                     res['samples'] = [next(f, '').strip()[:160] for _ in range(12)]
     return res
 
@@ -638,7 +638,7 @@ def run_colls(ctx, cases, seeds, inputs_file=None, binname='colls', prefix='C ')
                 # died inside one, that line is the failing input
                 inflight = None
                 try:
-                    with open(trace) as f:
+                    with open(trace, errors='replace') as f:
                         for l in f:
                             if l.startswith('VB '):
                                 inflight = l.rstrip('\n')
@@ -661,7 +661,7 @@ def run_colls(ctx, cases, seeds, inputs_file=None, binname='colls', prefix='C ')
             # case line preceding each X line = the input of that monitor failure
             last_case = None
             xs = []
-            with open(trace) as f:
+            with open(trace, errors='replace') as f:
                 for l in f:
                     l = l.rstrip('\n')
                     if l.startswith(prefix) or (binname == 'colls' and (l.startswith('V ') or l.startswith('HP ') or l.startswith('HZ ') or l.startswith('HB ') or l.startswith('HH ') or l.startswith('G '))):
@@ -918,7 +918,7 @@ def run_pool(ctx, runs, steps, mt_runs, seeds, extra=None):
                 continue
             # every X line belongs to the run (RUN ... / M ...) whose header precedes it
             last_hdr = None
-            with open(trace) as f:
+            with open(trace, errors='replace') as f:
                 for l in f:
                     l = l.rstrip('\n')
                     if l.startswith('RUN ') or l.startswith('M '):
